@@ -98,7 +98,7 @@ def plan(seed, subbatch):
             "config": {"sim_now": planlib.pick_sim_now(sub_rng(seed, "sim-now"), rows), "route": route, "tf": tf, "base_s": base_s, "spec": spec, "lifespan_s": lifespan,
                        "shared_objects": shared, "siblings": siblings,
                        # gap filling next to the conversion: the recurrence runs over the FILLED collapsed series
-                       "fill": fill},
+                       "fill": fill, "carried_readings": sub_rng(seed, "carried").random() < 0.1},
             "ops": [{"op": "new", "preload": pre}] + ops, "fired": dict(fired)}
 
 
@@ -150,6 +150,12 @@ def execute(trace, ctx=None):
                     n_appends += 1 if rows else 0
                     delivered.extend(rows)
                     objs = mk_candles(rows)
+                    if cfg.get("carried_readings") and tf is None and member_of(route, subject) is not None:
+                        # the caller's Candle objects already carry a reading under the member's name (taken from
+                        # another pipeline that worked on raw values): conversion wipes what a candle carries
+                        for cobj in objs:
+                            cobj.indicators[member_of(route, subject).name] = 777.0
+                        run.stats["reach:candles_arriving_with_readings"] += 1
                     if upstream is not None and objs:
                         upstream.append(objs)   # converts the caller's objects in place
                     run.call(len(delivered) + (span_of(delivered) // tf_s if tf_s and cfg.get("fill") else 0),
